@@ -69,7 +69,7 @@ def row_hash(row):
     return acc
 
 
-def cases_v(cases):
+def cases_v(cases, fx=False):
     """cases.v body: one definition per case (keeps each term small), summary = mismatching cases."""
     out = ["From Coq Require Import ZArith List Bool Uint63. Import ListNotations.",
            "From GV Require Import C42.Model C42.Tie.", "Open Scope Z_scope."]
@@ -77,7 +77,7 @@ def cases_v(cases):
     for k, c in enumerate(cases):
         ops = "[" + "; ".join(op_to_coq(o) for o in c["ops"]) + "]"
         obs = "[" + "; ".join("%d%%uint63" % row_hash(row) for row in c["obs"]) + "]"
-        out.append("Definition r%d := check_case_h 1 %s %d %s %s." % (k, b(c["notify"]), c["window"], ops, obs))
+        out.append("Definition r%d := check_case_h 1 %s %d %s %s %s." % (k, b(c["notify"]), c["window"], b(fx), ops, obs))
         names.append("(%d%%nat, r%d)" % (k, k))
     out.append("Definition results : list (nat * option (nat * list Z)) := [%s]." % "; ".join(names))
     out.append("Definition bad := filter (fun r => match snd r with Some _ => true | None => false end) results.")
@@ -273,38 +273,60 @@ def oracle_c42(c):
     return bad
 
 
+KNOWN_C43_CHUNKED = "chunked-flow:re-registration-lifts-demandUpTo-to-currentSeq-beyond-highest-request"
+
+
 def oracle_c43(c):
+    """every SequencedMessage within the highest request the consumer controller ever sent (and within the highest the
+    producer controller received), demandUpTo within it, receive buffer within the window.
+    In a chunked flow a (re-)registration that sets demandUpTo := currentSeq above the highest request, and what is
+    emitted under that demand until the next Request, is reported under the narrow signature KNOWN_C43_CHUNKED."""
     bad = []
     max_sent = 0       # highest request-up-to the consumer controller ever sent
     max_deliv = 0      # highest request-up-to that reached the producer controller
     net_pc = []
     w = c["window"]
+    chunked = c.get("chunk", 0) > 0
+    taint = False
+    known = None
     for k in range(len(c["obs"])):
         g = split_groups(c["obs"][k])
         op = c["ops"][k - 1] if k > 0 else None
+        reg = False
         if op is not None and op["op"] == "DeliverPC" and op.get("i", 0) < len(net_pc):
             m = net_pc[op.get("i", 0)]
             if m[0] == 12:
                 max_deliv = max(max_deliv, m[4])
+            reg = m[0] == 11
+        P, C = g["P"], g["C"]
+        if P["demand"] > max_sent:
+            if chunked and (taint or (reg and P["demand"] == P["cur"])):
+                if not taint:
+                    known = (KNOWN_C43_CHUNKED, "chunked flow: the registration delivered at step %d set demandUpTo to currentSeq=%d, the consumer controller never requested beyond %d" % (k, P["demand"], max_sent), k)
+                taint = True
+            else:
+                bad.append(("demand:beyond-requested", "demandUpTo %d, highest request ever sent %d" % (P["demand"], max_sent), k))
+        else:
+            taint = False
         for m in g["toCC"]:
             if m[0] == 2:
                 q = m[3]
                 if q > max_sent:
-                    bad.append(("emit:beyond-requested", "SequencedMessage seq %d sent, highest request so far %d" % (q, max_sent), k))
-                elif q > max_deliv:
+                    if chunked and taint and q <= P["demand"]:
+                        known = (KNOWN_C43_CHUNKED, "chunked flow: SequencedMessage seq %d sent after a re-registration lifted demandUpTo to currentSeq=%d; the consumer controller never requested beyond %d" % (q, P["demand"], max_sent), k)
+                    else:
+                        bad.append(("emit:beyond-requested", "SequencedMessage seq %d sent, highest request so far %d" % (q, max_sent), k))
+                elif q > max_deliv and not (chunked and taint):
                     bad.append(("emit:beyond-received-demand", "SequencedMessage seq %d sent, highest request received by the producer controller %d" % (q, max_deliv), k))
         for m in g["toPC"]:
             net_pc.append(m)
             if m[0] == 12:
                 max_sent = max(max_sent, m[4])
-        P, C = g["P"], g["C"]
         if len(C["buf"]) > w:
             bad.append(("buffer:exceeds-window", "receive buffer holds %d entries, window %d" % (len(C["buf"]), w), k))
-        if P["demand"] > max_sent:
-            bad.append(("demand:beyond-requested", "demandUpTo %d, highest request ever sent %d" % (P["demand"], max_sent), k))
         if bad:
             break
-    return bad
+    return bad + ([known] if known else [])
 
 
 def fault_stats(c):
@@ -383,11 +405,16 @@ def run_rd_check(ctx, pid, test_name, files, mix, oracle, theorems, quick_n, tho
 
     # ---- independent oracle on the implementation runs
     n_viol = 0
+    seen_known = set()
     for c in cases:
         if any(not is_legit(o) for o in c["ops"]):
             continue  # forged controller traffic is outside the property's fault model (tie only)
-        for (sig, what, step) in oracle(c)[:1]:
-            if n_viol < 4:
+        for (sig, what, step) in oracle(c)[:2]:
+            if sig in seen_known:
+                continue
+            if sig.startswith("chunked-flow:"):
+                seen_known.add(sig)   # a narrow, listable finding: one report per run is enough
+            if n_viol < 4 or sig in seen_known:
                 ctx.violation(sig, "%s (case %s, mode %s, window %d, step %d of %d)" % (what, c["id"], c["mode"], c["window"], step, len(c["ops"])),
                               replay_of(c, step))
             n_viol += 1
@@ -405,9 +432,17 @@ def run_rd_check(ctx, pid, test_name, files, mix, oracle, theorems, quick_n, tho
         all_cases = cases
         # the model covers volatile whole-payload flows; chunked flows and the durable-queue lane: oracle only
         cases = [c for c in all_cases if not c.get("chunk") and not c.get("durable")]
-        rc2, o2 = ctx.coq_eval("cases_" + pid, cases_v(cases))
+        rc2, o2 = ctx.coq_eval("cases_" + pid, cases_v(cases, False))
         res = parse_summary(o2)
-        ctx.log("coq model evaluated on %d cases in %.1fs" % (len(cases), time.time() - t0))
+        variant = "demandUpTo := currentSeq"
+        if rc2 == 0 and res is not None and res[1] > 0:
+            # the model carries both registration rules (both proved); a tree with fixes/C43-registration-demand.diff follows the other one
+            rc3, o3 = ctx.coq_eval("cases_" + pid + "_fx", cases_v(cases, True))
+            res3 = parse_summary(o3)
+            if rc3 == 0 and res3 is not None and res3[1] == 0:
+                rc2, o2, res, variant = rc3, o3, res3, "demandUpTo := min(demandUpTo, currentSeq)"
+        ctx.coverage["registration_demand_rule_observed"] = variant
+        ctx.log("coq model evaluated on %d cases in %.1fs (%s)" % (len(cases), time.time() - t0, variant))
         if rc2 != 0 or res is None or res[0] != len(cases):
             ctx.tie_broken("model evaluation (cases.v did not evaluate)", o2)
         else:
